@@ -44,6 +44,8 @@ mod mutate;
 mod project;
 #[path = "c08/project_worker.rs"]
 mod project_worker;
+#[path = "c08/repeats.rs"]
+mod repeats;
 #[path = "c08/shadow.rs"]
 mod shadow;
 #[path = "c08/strings.rs"]
@@ -1135,6 +1137,23 @@ fn main() {
         }
         return;
     }
+    if args.extra.get("list-repeats").is_some() {
+        // diagnostic mode: only the conditional-repeats family; outcome distribution (the documents are meant to be valid)
+        let mut rng = Rng::new(args.seed);
+        let mut rc = repeats::systematic(&mut rng, true);
+        for _ in 0..1000 {
+            rc.push(repeats::random(&mut rng));
+        }
+        let mut one = Report::new("C08", RULE);
+        stress_stream(&mut one, &rc);
+        for (k, v) in one.dist.iter().filter(|(k, _)| k.starts_with("project-")) {
+            println!("{k}\t{v}");
+        }
+        for f in one.failures {
+            println!("{}\t{}\t{}", f.signature, f.what, f.case["files"][0][1].as_str().unwrap_or("").replace('\n', " / "));
+        }
+        return;
+    }
     let mut rng = Rng::new(args.seed);
     let search = args.extra.get("search").is_some();
     // ---- corpus first
@@ -1229,6 +1248,13 @@ fn main() {
     let sh = shadow::shadow_cases();
     rep.extra.insert("shadowed_builtin_cases".into(), json!(sh.len()));
     stress_stream(&mut rep, &sh);
+    // the same fragment / field / inline fragment repeated in one scope under different conditions (valid documents)
+    let mut rc = repeats::systematic(&mut rng, args.thorough() || search);
+    for _ in 0..args.budget(300, 3000) {
+        rc.push(repeats::random(&mut rng));
+    }
+    rep.extra.insert("conditional_repeat_cases".into(), json!(rc.len()));
+    stress_stream(&mut rep, &rc);
     rep.extra.insert("project_stream_ms".into(), json!(t_project.elapsed().as_millis() as u64));
     // the semantic stress stream runs LAST (a hang costs the watchdog bound)
     let sc = stress_cases(&mut rng, args.thorough() || search);
